@@ -352,7 +352,7 @@ PROPS = {
     },
     "C08": {
         "rules": [lambda prog, tier: exact.run(prog, {"WRITE": {"roots": ["mpq_QSwrite_prob", "mpq_QSwrite_prob_file", "mpq_QSreport_prob"], "closure": True},
-                                                     "READ": {"roots": ["mpq_QSread_prob", "mpq_QSget_prob"], "closure": True}},
+                                                     "READ": {"roots": ["mpq_QSread_prob", "mpq_QSget_prob"], "closure": True, "word": True}},
                                                floors=[("exact literal parser on the LP/MPS read path", ["mpq_QSread_prob"], "mpq_EGlpNumReadStrXc", 1)]),
                   lambda prog, tier: tokens.run_lp(prog),
                   lambda prog, tier: tokens.run_sections(prog, "mpq_ILLwrite_lp", {"End"}, print_funcs={"mpq_ILLprint_report": 1}, token_ok=lambda t: t[0].isupper()),
@@ -375,7 +375,7 @@ PROPS = {
     },
     "C09": {
         "rules": [lambda prog, tier: exact.run(prog, {"WRITE": {"roots": ["mpq_QSwrite_prob", "mpq_QSwrite_prob_file", "mpq_QSreport_prob"], "closure": True},
-                                                     "READ": {"roots": ["mpq_QSread_prob", "mpq_QSget_prob"], "closure": True}}),
+                                                     "READ": {"roots": ["mpq_QSread_prob", "mpq_QSget_prob"], "closure": True, "word": True}}),
                   lambda prog, tier: tokens.run_mps(prog),
                   lambda prog, tier: tokens.run_sections(prog, "mpq_ILLwrite_mps", {"ENDATA"}, print_funcs={"mpq_ILLprint_report": 1}, token_ok=lambda t: t.isupper() and len(t) >= 2),
                   lambda prog, tier: idxclass.run(prog, scope_units=("mps_mpq.c", "rawlp_mpq.c")),
@@ -394,7 +394,7 @@ PROPS = {
                        "(seeds C09/2, C10/3), the literal parser's state machine (seeds C09/3, C10/1)",
     },
     "C10": {
-        "rules": [lambda prog, tier: exact.run(prog, {"READ": {"roots": ["mpq_QSread_prob", "mpq_QSget_prob"], "closure": True}},
+        "rules": [lambda prog, tier: exact.run(prog, {"READ": {"roots": ["mpq_QSread_prob", "mpq_QSget_prob"], "closure": True, "word": True}},
                                                floors=[("exact literal parser reachable from QSread_prob", ["mpq_QSread_prob"], "mpq_EGlpNumReadStrXc", 1),
                                                        ("exact literal parser reachable from ILLget_value", ["mpq_ILLget_value"], "mpq_EGlpNumReadStrXc", 1)]),
                   lambda prog, tier: rescan.run(prog), lambda prog, tier: defaults.run(prog)],
